@@ -189,3 +189,13 @@ func Run2(a, b *End, fa, fb func(*End) error) (errA, errB error) {
 	wg.Wait()
 	return
 }
+
+// Inject appends already-recorded messages to this end's receive queue.
+func (e *End) Inject(msgs []Msg) {
+	e.sh.mu.Lock()
+	for _, m := range msgs {
+		e.q = append(e.q, Msg{Kind: m.Kind, Data: m.Data})
+	}
+	e.sh.cond.Broadcast()
+	e.sh.mu.Unlock()
+}
